@@ -90,7 +90,13 @@ def shard_fn(shard, nshards, seed, tier, exe, ntrees, ndoubles):
                     nv = rng.choice([0, -1, 1 << 53, -(1 << 63), (1 << 63) - 1, rng.getrandbits(62)])
                     cm = ["SET 5 i64 %d" % nv]
                 elif c0 in "dD":
-                    nv = rng.choice([0.5, -2.0, 1e300, 5e-324, 123456789.125, 0.1, 3.0])
+                    nv = rng.choice([0.5, -2.0, 1e300, 5e-324, 123456789.125, 0.1, 3.0, 0.0, -0.0])
+                    cur = get_at(value, path)
+                    if isinstance(cur, float) and rng.random() < 0.6:
+                        # a value that compares equal to the old one but is a different double (the other zero), or a neighbour of it
+                        nv = -cur if cur == 0.0 else refjson.from_bits(refjson.dbits(cur) ^ 1)
+                        if nv != nv or nv in (float("inf"), float("-inf")):
+                            nv = 1.5
                     cm = ["SET 5 dbl %016x" % refjson.dbits(nv)]
                 elif c0 == "s":
                     nv = bytes(rng.choice(b'ab"\\/\x00\x01\xc3\xa9 z') for _ in range(rng.choice([0, 1, 7, 8, 40, 300])))
